@@ -1,5 +1,6 @@
 import EtVerif.Props.C20
 import EtVerif.Props.C15
+import EtVerif.Props.TrPg
 #print axioms EtVerif.C20.stages
 #print axioms EtVerif.C20.rows_each_peer_once
 #print axioms EtVerif.C20.rows_sorted_desc
@@ -10,3 +11,6 @@ import EtVerif.Props.C15
 #print axioms EtVerif.C20.unusable_records
 #print axioms EtVerif.C20.rat_eq_field
 #print axioms EtVerif.C15.bounded_computation_playground
+-- the playground's iteration bound (the repair e85c9dc), translated from the current source, is the model's pgIterBound
+#print axioms EtVerif.TrPg.iterationBound_refines
+#print axioms EtVerif.TrPg.iterationBound_range
